@@ -10,16 +10,16 @@ TRUST = ("Trusted: the VC generator govc (SSA->SMT translation, memory model, lo
 
 claimed = {
  "C07": dict(
-   text="Deductive proof with a ghost state variable 'an error-level line has been logged' (log lines whose literal format starts with one of colog's error-level headers, including the two that cmd/gosk registers after the repair): TraverseAST logs one for every statement whose mnemonic has no pass-1 handler (for every content of the handler table); ocodeClient.Emit logs one, and appends nothing, whenever a line cannot be turned into an ocode (after the first repair); processDW and processDD hand exactly one value per operand to the emitter or have logged an error (loop invariant over operand lists of any length: no operand is dropped silently; after the second repair, which makes the capitalised 'Error...' lines error-level); GenerateX86 reports every ocode whose code generation returns an error (ghost variable for the callee's failure); main registers those headers.",
+   text="Deductive proof with a ghost state variable 'an error-level line has been logged' (log lines whose literal format starts with one of colog's error-level headers, including the two that cmd/gosk registers after the repair): TraverseAST logs one for every statement whose mnemonic has no pass-1 handler (for every content of the handler table); ocodeClient.Emit logs one, and appends nothing, whenever a line cannot be turned into an ocode (after the first repair); processDW and processDD hand exactly one value per operand to the emitter or have logged an error (loop invariant over operand lists of any length: no operand is dropped silently; after the second repair, which makes the capitalised 'Error...' lines error-level); GenerateX86 reports every ocode whose code generation returns an error (ghost variable for the callee's failure); handleLGDT returns an error for a wrong operand count, an operand that is not bracketed and a label that is not in the symbol table; main registers those headers.",
    note=TRUST + " PARTIAL: the other pass-1 handlers (instruction operand shapes), undefined jump targets (placeholder entries are never checked), and the link to the exit status are not decided. TraverseAST's mode clause and frame are trusted, its panic sites not analysed. Two fix commits belong to this property.",
    design="DESIGN.md section 4, C07"),
  "C01": dict(
-   text="Deductive proofs over the real leaf encoders that every instruction handler uses: GetRegisterNumber gives each general, segment and control register name its SDM number and rejects everything else; ModRMByOperand/ModRMByValue build, for register operands, exactly mod=11 | reg<<3 | rm with the two registers in their roles (or the /digit), and for memory operands a ModR/M byte whose reg field is the register operand; calculateModRM's bytes decode to the written effective address (C02 clause, shared); getImmediateValue emits the low size*8 bits of the value little-endian; getImmediateSizeType has the signed thresholds; registerToPushPopCode gives the +r numbers of 16/32-bit registers only; handleINT emits CD ib; handleRET emits C3. The hand-written encoding rows (code, not data) are checked against the instruction set: in MOV forms with a segment or control register the special register is in the reg field and the general register in r/m, with opcodes 8C/8E/0F20/0F22 (a wrong row was found and repaired, fix commit); every IN/OUT row has the SDM opcode for its accumulator/port form and a one-byte port immediate; PUSH/POP r32 are 50+rd / 58+rd. The prefix decisions: Require67h is true exactly when a memory operand is addressed with registers of the other address size (proved without exception); Require66h is true exactly when a register operand or an explicitly sized memory operand has the non-default 16/32-bit size - outside two recorded regions where the tree also lets the magnitude of an immediate and the address registers of an unsized memory operand decide.",
-   note=TRUST + " PARTIAL, and the larger part is open: the per-mnemonic handlers (MOV, ALU, logical, IMUL, IN/OUT, PUSH/POP, no-operand table) that choose the asmdb row, prefixes and immediate width are not under contract, nor is the asmdb table itself (A3); the operand text parser is assumed (A1, A2), 64-bit register names are excluded (A16, recorded finding). Findings recorded: 64-bit names numbered like 32-bit ones; the five C02 regions.",
+   text="Deductive proofs over the real encoders, in three layers. (1) Leaf encoders: GetRegisterNumber (SDM numbers of general, segment, control registers), ModRMByOperand/ModRMByValue (mod=11 | reg<<3 | rm with the operands in their roles or the /digit; for memory operands the ModR/M byte, the SIB byte exactly when the ModR/M byte calls for one, then the displacement - this clause found the dropped 00 SIB byte, repaired), calculateModRM (C02 clause plus no-SIB and displacement-length clauses), ResolveOpcode (loop invariant: every opcode byte is the value of its two hex digits, +r adds the register number to the last one), getImmediateValue (low size*8 bits little-endian), GenerateModRM (routes the operands and the digit a table row names to the builders). (2) Instruction handlers generateArithmeticCode (ADD/SUB/CMP), generateLogicalCode (AND/OR/XOR/SHR/SHL/SAR), handleNOT, handleIMUL, handleMOV: the bytes are exactly [66h][67h] (as Require66h/Require67h answer for the operands in the context's mode, either order, no 66h for control-register moves) + the opcode bytes of the chosen row (+r register of the operand the row names) + the ModR/M part made of the same row, the same operands and the mode (for MOV moffs forms the mode-sized address) + the immediate made of the operand the row names in the row's size (for MOV also a label address), and nothing else, via a ghost log of the calls each handler makes; handlePUSH/handlePOP (50+r/58+r, segment-register opcodes, FF /6 and 8F /0 with the ModR/M layout, PUSH imm = 6A ib exactly for -128..127 else 68 iw/id by mode), handleLGDT (0F 01 /2 with the label address), handleIN/OUT, handleINT, handleRET. (3) The 144-entry table of operand-less mnemonics is checked entry by entry (package initialiser executed symbolically) against an SDM transcription: 38 proved, REP repaired, four regions recorded. Plus the hand-written table rows (MOV with segment/control registers - one row repaired -, IN/OUT, PUSH/POP) and the prefix rules Require67h (exact) / Require66h (two regions recorded).",
+   note=TRUST + " PARTIAL: that FindEncoding returns the row an assembler should choose for the operands is assumed together with the JSON table (A3; the handlers are proved for whatever well-formed row comes back - asmdb.SpecRowOK is a trusted clause); the operand text parser is assumed (A1, A2), the string handed to it (strings.Join) is not checked; table-driven indexing in the handlers is not shown panic-free; 64-bit register names are excluded (A16, recorded finding); three-operand IMUL source forms are not decided. Findings recorded: 64-bit names numbered like 32-bit ones; the five C02 regions; four operand-less regions (multi-byte encodings cut to one byte, missing 66h, mnemonics that need operands, 64-bit-only mnemonics); two 66h regions.",
    design="DESIGN.md section 4, C01"),
  "C03": dict(
-   text="Deductive proofs tying the two independent size computations to one specification each: (a) memory operands - pass 1's CalcOffsetByteSize/CalcSibByteSize and the emitter's calculateModRM are both proved, for every operand and both modes, to produce the number of displacement bytes and the SIB presence given by one SDM-derived size function of the operand (so they agree wherever both proofs hold; six input regions where the current tree disagrees are recorded findings); (b) data directives - processDB/DW/DD/RESB/ALIGNB advance LOC by exactly the number of bytes handleDB/DW/DD/RESB/ALIGNB emit for the values handed over (loop invariants, any list length); (c) jumps - estimateJumpSize/getOffsetSize size classes; (d) the origin reaches code generation unchanged (SetDollarPosition, Pass2.Eval) and `$`/label values are read from the table pass 1 filled (ImmExp.Eval, SetSymbolTable); (e) GetOutputSize is the row's byte count (opcode-length finding recorded).",
-   note=TRUST + " PARTIAL: the summation itself (every label = origin + sum of the sizes of the statements before it) happens in pass1.TraverseAST, which is only used through a trusted frame contract; FindMinOutputSize/GetPrefixSize (prefix bytes) and the per-instruction pass-1 handlers are not under contract; the jump size estimate is known to disagree with emission (C04 findings).",
+   text="Deductive proofs tying the two independent size computations to one specification each: (a) memory operands - pass 1's CalcOffsetByteSize/CalcSibByteSize and the emitter's calculateModRM are both proved, for every operand and both modes, to produce the number of displacement bytes and the SIB presence given by one SDM-derived size function of the operand (so they agree wherever both proofs hold; six input regions where the current tree disagrees are recorded findings); (b) data directives - processDB/DW/DD/RESB/ALIGNB advance LOC by exactly the number of bytes handleDB/DW/DD/RESB/ALIGNB emit for the values handed over (loop invariants, any list length); (c) jumps - estimateJumpSize/getOffsetSize size classes; (d) the origin reaches code generation unchanged (SetDollarPosition, Pass2.Eval) and `$`/label values are read from the table pass 1 filled (ImmExp.Eval, SetSymbolTable); (e) GetOutputSize is the row's byte count (opcode-length finding recorded); (f) emitter-side instruction length: the handlers' layout.len clauses (sum of prefix, opcode, ModR/M and immediate parts), ResolveOpcode.len, the ModR/M layout clause, one byte for every operand-less table mnemonic.",
+   note=TRUST + " PARTIAL: the summation itself (every label = origin + sum of the sizes of the statements before it) happens in pass1.TraverseAST, which is only used through a trusted frame contract; FindMinOutputSize/GetPrefixSize (prefix bytes) and the per-instruction pass-1 handlers are not under contract (seen end to end, outside every obligation: MUL/DIV/IDIV with an operand are sized from the table by pass 1 and emitted as one byte); the jump size estimate is known to disagree with emission (C04 findings).",
    design="DESIGN.md section 4, C03"),
  "C08": dict(
    text="Deductive proof over the real COFF writer. CoffFormat.Write (layout arithmetic with loop invariants for any number of symbols): the symbol table starts at 20+3*40+len(code), the header's symbol count is the number of 18-byte records (main + auxiliary, recursive spec) actually appended, the buffer handed to the file is 140+len(code)+18*count+4+len(strings) bytes long, the string-table size field is len(strings)+4, header values (machine 0x14c, 3 sections, no optional header) and section header values (.text size = code size at offset 140, .data/.bss empty, names) are as specified, exactly one write on success. generateSymbolEntries / convertNameToBytes: fixed symbols and their auxiliary records, every record announces exactly the auxiliary records that follow, user symbols are externals of section 0 or 1, entry count, name fields inline or as a string-table offset that points at the name (data-structure invariant over all keys of the de-duplication map).",
